@@ -408,6 +408,8 @@ func (e *engine) envelopeCases(c fsCase, other *edKey) {
 				mon = what + " on a key path that does not exist in a writable directory did not write a new key there (" + c.class + ")"
 			case !made.ok:
 				mon = what + " created something at the missing key path that is not a private (0600) LIBP2P PRIVATE KEY file of a well-formed Ed25519 key (" + c.class + ")"
+			case e.noteGenerated(made.priv, what+" "+c.class) != "":
+				mon = what + ": the key written for a missing path is not new (the same private key was generated before in this run)"
 			case cmd == "seal" && (oc != "ok" || used != lib.Hex(made.pub)):
 				mon = fmt.Sprintf("%s on a missing key path did not seal to the key it wrote there (outcome %s, sealed to %q, file holds %s)", what, oc, used, lib.Hex(made.pub))
 			case cmd == "unseal" && (oc == "ok" || outWritten):
